@@ -163,7 +163,7 @@ def asan_pass(chk, cases, ri, label):
     report aborts the driver and shows up as CRASH lines)"""
     import os
     try:
-        exe = vlib.build_impl(chk.dir, name='impl_asan', cc='clang', opt='-O1', flags=['-fsanitize=address,undefined', '-fno-sanitize-recover=undefined', '-g'])
+        exe = vlib.build_impl(chk.dir, name='impl_asan', cc='clang', opt='-O1', flags=['-fsanitize=address,undefined', '-fno-sanitize-recover=undefined', '-g', '-DVERIF_EXACT_BUFFERS=1'])
     except vlib.BuildError as e:
         chk.notes.append('ASan build not available: ' + str(e)[-200:]); return
     os.environ.setdefault('ASAN_OPTIONS', 'detect_leaks=0')
